@@ -343,7 +343,7 @@ func CheckC01(r *Run) int {
 	}
 	r.Native = nat
 	shapes := c01Shapes()
-	ngen := 40
+	ngen := 200
 	if r.Tier != "quick" {
 		ngen = 6000
 	}
